@@ -313,7 +313,7 @@ func (e *redisEngine) close() {
 }
 
 func (e *redisEngine) Rule() string {
-	return "C30: (a) one connection: INCRBY/DECRBY/SET NX/GET sequences compared with the model line by line; (b) stress: 8 connections hammer one counter with INCR/INCRBY/DECR (initial value 100) and race SET NX on fresh keys, against the real nokv-redis binary in embedded mode (every case) and against its raft backend over real Percolator stores (corpus witness + thorough tier); non-trivial = a stress line ran to completion with at least 2 connections"
+	return "C30: (a) one connection: INCRBY/DECRBY/SET NX/GET sequences compared with the model line by line; (b) stress: 8 connections hammer one counter with INCR/INCRBY/DECR (initial value 100), race INCRBY on counters that were deleted or have expired, and race SET NX on keys that are absent because never written / deleted / expired, against the real nokv-redis binary in embedded mode (every case) and against its raft backend over real Percolator stores (corpus witness + thorough tier); non-trivial = a stress line ran to completion with at least 2 connections"
 }
 
 func (e *redisEngine) Extra() map[string]any { return e.stats }
@@ -346,10 +346,15 @@ func (e *redisEngine) Gen(r *hlib.Rand, tier string) []string {
 	}
 	if r.Chance(35) {
 		backend := "embedded"
-		if r.Bool() {
+		// the key is absent because it was never written, was deleted, or has expired
+		mode := hlib.Pick(r, []string{"fresh", "deleted", "expired"})
+		switch {
+		case r.Bool():
+			ops = append(ops, fmt.Sprintf("stress.setnx backend=%s clients=%d keys=%d mode=%s", backend, 2+r.Intn(7), 60+r.Intn(120), mode))
+		case mode == "fresh":
 			ops = append(ops, fmt.Sprintf("stress.incr backend=%s clients=%d per=%d", backend, 2+r.Intn(7), 60+r.Intn(120)))
-		} else {
-			ops = append(ops, fmt.Sprintf("stress.setnx backend=%s clients=%d keys=%d", backend, 2+r.Intn(7), 60+r.Intn(120)))
+		default:
+			ops = append(ops, fmt.Sprintf("stress.incr backend=%s clients=%d keys=%d mode=%s", backend, 2+r.Intn(7), 40+r.Intn(80), mode))
 		}
 	}
 	return ops
@@ -472,10 +477,15 @@ func (e *redisEngine) execOnce(ops []string) []string {
 		switch toks[0] {
 		case "stress.incr":
 			per, _ := strconv.Atoi(kvArg(toks, "per"))
-			out[i] = e.stressIncr(g, backend, clients, per)
+			if mode := kvArg(toks, "mode"); mode == "deleted" || mode == "expired" {
+				keys, _ := strconv.Atoi(kvArg(toks, "keys"))
+				out[i] = e.stressIncrAbsent(g, backend, clients, keys, mode)
+			} else {
+				out[i] = e.stressIncr(g, backend, clients, per)
+			}
 		case "stress.setnx":
 			keys, _ := strconv.Atoi(kvArg(toks, "keys"))
-			out[i] = e.stressSetNX(g, backend, clients, keys)
+			out[i] = e.stressSetNX(g, backend, clients, keys, kvArg(toks, "mode"))
 		case "sched.incr":
 			out[i] = e.schedIncrRaft(g)
 		default:
@@ -615,7 +625,91 @@ func (e *redisEngine) schedIncrRaft(g *gateway) string {
 	return "consistent"
 }
 
-func (e *redisEngine) stressSetNX(g *gateway, backend string, clients, keys int) string {
+// makeAbsent leaves `key` absent in the given way: "deleted" = SET then DEL, "expired" = SET with an
+// expiry in the past, anything else = never written.
+func makeAbsent(adm *respConn, key, mode string) string {
+	switch mode {
+	case "deleted":
+		if r := adm.do("SET", key, "100"); r != "OK" {
+			return "harness:set:" + r
+		}
+		if r := adm.do("DEL", key); r != "int:1" {
+			return "harness:del:" + r
+		}
+	case "expired":
+		if r := adm.do("SET", key, "100", "EXAT", "1"); r != "OK" {
+			return "harness:set:" + r
+		}
+	}
+	return ""
+}
+
+// stressIncrAbsent: on each of `keys` counters that are absent because they were deleted or have
+// expired, every connection sends one INCRBY at the same moment; the final value must be the sum
+// of the deltas that got an integer reply (the counter starts from 0).
+func (e *redisEngine) stressIncrAbsent(g *gateway, backend string, clients, keys int, mode string) string {
+	if keys <= 0 {
+		keys = 60
+	}
+	e.keySeq++
+	base := fmt.Sprintf("ctr%s%d_", mode, e.keySeq)
+	adm, err := dialResp(g.addr)
+	if err != nil {
+		return "harness:" + err.Error()
+	}
+	defer adm.c.Close()
+	conns := make([]*respConn, clients)
+	for c := range conns {
+		rc, err := dialResp(g.addr)
+		if err != nil {
+			return "harness:" + err.Error()
+		}
+		defer rc.c.Close()
+		conns[c] = rc
+	}
+	for k := 0; k < keys; k++ {
+		key := base + strconv.Itoa(k)
+		if r := makeAbsent(adm, key, mode); r != "" {
+			return r
+		}
+		var sum, ioErr atomic.Int64
+		var wg sync.WaitGroup
+		start := make(chan struct{})
+		for c := range conns {
+			wg.Add(1)
+			go func(c int) {
+				defer wg.Done()
+				<-start
+				d := int64(c + 1)
+				r := conns[c].do("INCRBY", key, strconv.FormatInt(d, 10))
+				if strings.HasPrefix(r, "int:") {
+					sum.Add(d)
+				} else if strings.HasPrefix(r, "io:") {
+					ioErr.Add(1)
+				}
+			}(c)
+		}
+		close(start)
+		wg.Wait()
+		if ioErr.Load() > 0 {
+			return "harness:io-errors"
+		}
+		final := adm.do("GET", key)
+		fv := int64(0)
+		if strings.HasPrefix(final, "bulk:") {
+			fv, _ = strconv.ParseInt(final[5:], 10, 64)
+		} else if final != "nil" {
+			return "harness:get:" + final
+		}
+		if fv != sum.Load() {
+			e.stats["incr_"+mode+"_example"] = fmt.Sprintf("%d clients INCRBY on a %s counter: deltas of OK replies sum to %d, final %d", clients, mode, sum.Load(), fv)
+			return "lost-update"
+		}
+	}
+	return "consistent"
+}
+
+func (e *redisEngine) stressSetNX(g *gateway, backend string, clients, keys int, mode string) string {
 	if keys <= 0 {
 		keys = 100
 	}
@@ -631,8 +725,16 @@ func (e *redisEngine) stressSetNX(g *gateway, backend string, clients, keys int)
 		conns[c] = rc
 	}
 	multi := 0
+	adm, err := dialResp(g.addr)
+	if err != nil {
+		return "harness:" + err.Error()
+	}
+	defer adm.c.Close()
 	for k := 0; k < keys; k++ {
 		key := base + strconv.Itoa(k)
+		if r := makeAbsent(adm, key, mode); r != "" {
+			return r
+		}
 		var okN, ioErr atomic.Int64
 		var wg sync.WaitGroup
 		start := make(chan struct{})
